@@ -89,9 +89,20 @@ package peers
 //@   param .onPop: ensures !$PoolLocked && !$QueueLocked
 //@   loop 1: invariant !$PoolLocked && !$QueueLocked
 
+// (call-site view of add for the manager: the pool invariant - activeCount counts the active statuses - is a
+// representation invariant: newPool establishes it, every pool method is proved to preserve it under
+// the pool lock, the fields are private to this file; callers owe only the lock discipline)
+//@ extern (*github.com/celestiaorg/celestia-node/share/shwap/p2p/shrex/peers.pool).add
+//@   requires !$PoolLocked && !$QueueLocked
+//@   modifies p
+//@   modifies p.statuses
+//@   modifies p.peersList
+//@   ensures !$PoolLocked && !$QueueLocked
 //@ func (*pool).add
 //@   property C17
-//@   noframe
+//@   havoc $PoolLocked $QueueLocked
+//@   ensures !$PoolLocked && !$QueueLocked
+//@   ensures p.cooldown == old(p.cooldown)
 //@   requires !$PoolLocked && !$QueueLocked
 //@   requires p.activeCount == countEq(p.statuses, active)
 //@   modifies p
@@ -111,6 +122,12 @@ package peers
 //@   ensures countEq(p.statuses, active) == old(countEq(p.statuses, active)) && p.activeCount == old(p.activeCount) && p.statuses == old(p.statuses)
 //@   loop 1: invariant countEq(p.statuses, active) == old(countEq(p.statuses, active)) && p.activeCount == old(p.activeCount) && p.statuses == old(p.statuses) && p.peersList == old(p.peersList)
 
+//@ extern (*github.com/celestiaorg/celestia-node/share/shwap/p2p/shrex/peers.pool).remove
+//@   requires !$PoolLocked && !$QueueLocked
+//@   modifies p
+//@   modifies p.statuses
+//@   modifies p.peersList
+//@   ensures !$PoolLocked && !$QueueLocked
 //@ func (*pool).remove
 //@   property C17
 //@   requires !$PoolLocked && !$QueueLocked
@@ -130,11 +147,15 @@ package peers
 //@ pure func activeIn(p *pool, id peer.ID) bool = has(p.statuses, id) && p.statuses[id] == active
 
 // (pools handed out by the manager satisfy the pool invariant that every pool operation preserves)
-//@ func (*Manager).validatedPool
-//@   property C17
-//@   trusted
+// (call-site view of validatedPool; the body view below checks what is added to the nodes pool)
+//@ extern (*github.com/celestiaorg/celestia-node/share/shwap/p2p/shrex/peers.Manager).validatedPool
 //@   ensures result != nil && result.pool != nil && result.pool != m.nodes && poolListed(result.pool)
 //@   ensures m.nodes == old(m.nodes) && poolListed(m.nodes)
+//@ func (*Manager).validatedPool
+//@   property C17
+//@   noframe
+//@   requires m != nil && m.nodes != nil && !$PoolLocked && !$QueueLocked
+//@   callpre pool).add: $arg0 == m.nodes ==> forall i int :: 0 <= i && i < len($arg1) ==> !blacklisted($arg1[i])
 
 //@ func (*Manager).removeIfUnreachable
 //@   property C17
@@ -182,3 +203,38 @@ package peers
 //@   noframe
 //@   requires m != nil && m.nodes != nil && poolInv(m.nodes) && !$PoolLocked && !$QueueLocked
 //@   callpre pool).putOnCooldown: $arg1 == peerID && ((source == sourceDiscoveredNodes) <==> ($arg0 == m.nodes))
+
+// ---------------------------------------------------------------------------------------------
+// C17: "with blacklisting enabled a blacklisted peer is never offered again". Peers taken from a data-hash
+// pool are checked against the blacklist when they are handed out (removeIfUnreachable); peers taken
+// from the discovered-nodes pool are not - that pool is kept free of blacklisted peers instead:
+// blacklisting removes the peer from it, and nothing may add a blacklisted peer to it. blacklisted(id):
+// the node's connection gater blocks id (libp2p conngater, assumed; the set only grows).
+//@ pure func blacklisted(id peer.ID) bool
+//@ extern (*github.com/libp2p/go-libp2p/p2p/net/conngater.BasicConnectionGater).InterceptPeerDial
+//@   params cg p
+//@   ensures result <==> !blacklisted(p)
+
+// (pools registered in the manager satisfy the pool invariant; creating one touches only the pool table)
+//@ func (*Manager).getOrCreatePool
+//@   property C17
+//@   trusted
+//@   ensures result != nil && result.pool != nil && result.pool != m.nodes && poolInv(result.pool) && result.pool.statuses != m.nodes.statuses
+//@   ensures m.nodes == old(m.nodes) && m.connGater == old(m.connGater) && deref(m.nodes) == old(deref(m.nodes))
+
+//@ func (*Manager).isBlacklistedPeer
+//@   property C17
+//@   requires m != nil
+//@   ensures result <==> blacklisted(peerID)
+
+//@ func (*Manager).UpdateNodePool
+//@   property C17
+//@   noframe
+//@   requires m != nil && m.nodes != nil && !$PoolLocked && !$QueueLocked
+//@   callpre pool).add: $arg0 == m.nodes ==> forall i int :: 0 <= i && i < len($arg1) ==> !blacklisted($arg1[i])
+
+//@ func (*Manager).Validate
+//@   property C17
+//@   noframe
+//@   requires m != nil && m.nodes != nil && !$PoolLocked && !$QueueLocked
+//@   callpre pool).add: $arg0 == m.nodes ==> forall i int :: 0 <= i && i < len($arg1) ==> !blacklisted($arg1[i])
